@@ -312,7 +312,11 @@ type fakeConn struct{ closed bool }
 
 func (c *fakeConn) Read(b []byte) (int, error)         { return 0, errors.New("fake") }
 func (c *fakeConn) Write(b []byte) (int, error)        { return len(b), nil }
-func (c *fakeConn) Close() error                       { c.closed = true; return nil }
+func (c *fakeConn) Close() error {
+	time.Sleep(time.Millisecond) // closing takes a (virtual) moment: whoever else wants to run does
+	c.closed = true
+	return nil
+}
 func (c *fakeConn) LocalAddr() net.Addr                { return &net.TCPAddr{} }
 func (c *fakeConn) RemoteAddr() net.Addr               { return &net.TCPAddr{} }
 func (c *fakeConn) SetDeadline(t time.Time) error      { return nil }
@@ -721,8 +725,17 @@ func (s *sim) run() {
 			}
 			fin := make(chan struct{}, n)
 			t0 := time.Now()
+			panicked := ""
 			for i := 0; i < n; i++ {
-				go func() { s.lb.Stop(); fin <- struct{}{} }()
+				go func() {
+					defer func() {
+						if r := recover(); r != nil {
+							panicked = fmt.Sprint(r)
+						}
+						fin <- struct{}{}
+					}()
+					s.lb.Stop()
+				}()
 			}
 			okAll := true
 			for i := 0; i < n; i++ {
@@ -734,7 +747,7 @@ func (s *sim) run() {
 			}
 			if okAll {
 				s.stopped = true
-				emit(map[string]any{"ev": "stopped", "n": n, "ms": int(time.Since(t0) / time.Millisecond)})
+				emit(map[string]any{"ev": "stopped", "n": n, "ms": int(time.Since(t0) / time.Millisecond), "panic": panicked})
 			} else {
 				emit(map[string]any{"ev": "stuck", "id": -1, "at": "stop"})
 			}
